@@ -283,6 +283,14 @@ def chain(B, G, kind, n, h, a=None, kmax=3):
     G.fact("held_results.first_result_survives", [[float(x) for x in r_] for r_ in B.scalars(r1)] == [[float(x) for x in r_] for r_ in o1s], "first result after the second call")
     G.fact("held_results.second_result", [[float(x) for x in r_] for r_ in B.scalars(r2)] == [[float(x) for x in r_] for r_ in o2s], "second result")
     G.fact("held_results.start_untouched", [[float(x) for x in r_] for r_ in B.scalars(x0)] == [[float(x) for x in r_] for r_ in (rows[-1], rows[0])], "start state")
+    # an explicit start state decides the number of chains, whatever num_samples says; with overwrite=True it is updated in place
+    for ow in (False, True):
+        x5 = C.rows_tensor(B, [rows[-1], rows[0]])
+        sc.calls.clear()
+        sc.queue = [rand_bits(rbm.num_hidden)] + ([rand_bits(a)] if kind == "mixed" else []) + [rand_bits(n)]
+        o5 = st.sample(1, num_samples=5, initial_state=x5, overwrite=ow)
+        G.fact("start_state_and_num_samples(overwrite=%s).shape" % ow, tuple(B.scalars(o5).shape) == (nb, n) and (o5 is x5) == ow,
+               "result %s, same object as the start state: %s" % (tuple(B.scalars(o5).shape), o5 is x5))
     # start state with extra leading dimensions [replica, chain, site]: every unit is still drawn from its exact conditional
     init3 = C.rows_tensor(B, [rows[-1], rows[0]]).unsqueeze(1).clone()
     hb, vb = rand_bits(rbm.num_hidden), rand_bits(n)
